@@ -127,9 +127,20 @@ def one_op(draw, cur):
         a = arrays[draw(st.integers(0, len(arrays) - 1))]
         n = len(rfc.node_at(cur, a)[1])
         if bad == "missing_index":
-            o = draw(st.sampled_from([b"remove", b"replace", b"test", b"copy"]))
-            loc = ptr(a) + b"/%d" % (draw(st.sampled_from([n, n + 1, n + 2, n, n] + [h + k for h in HUGE for k in range(min(n, 2) + 1)])))
-            return (full(o, b"/zz", frm=loc) if o == b"copy" else full(o, loc)), bad
+            o = draw(st.sampled_from([b"remove", b"replace", b"test", b"copy", b"test", b"copy"]))
+            idx = draw(st.sampled_from([n, n + 1, n + 2, n, n] + [h + k for h in HUGE for k in range(min(n, 2) + 1)]))
+            loc = ptr(a) + b"/%d" % idx
+            arr = rfc.node_at(cur, a)[1]
+            alias = arr[idx % (2 ** 32)] if arr and (idx % (2 ** 32)) < len(arr) else (arr[0] if arr else ["n"])
+            if draw(st.booleans()) and alias[0] in "AO" and alias[1]:
+                # the huge index as a NON-final token: descend into what a truncated index would alias
+                sub = b"0" if alias[0] == "A" else rfc.ptr_escape(alias[1][0][0])
+                loc = loc + b"/" + sub
+                alias = alias[1][0] if alias[0] == "A" else alias[1][0][1]
+            if o == b"copy":
+                return full(o, b"/zz", frm=loc), bad
+            # a 'test' whose value equals the element that a truncated index would alias
+            return full(o, loc, value=copy.deepcopy(alias)), bad
         if bad == "index_beyond":
             return full(b"add", ptr(a) + b"/%d" % (n + 1 + draw(st.integers(0, 3)))), bad
         if bad == "leading_zero_index":
